@@ -281,6 +281,9 @@ def rule_markdown_entry(ctx, rep, RULE, desc=None):
         inst = Rec('renderer-instance', log, {'render': rendered})
         factory = Rec('renderer-class', log, inst)
         inp = Unknown('input')          # any input: empty or not, str / list / file - nothing may depend on it here
+        # a call of itself (on something it made of the input) is followed once and then cut
+        it.on_recursion = lambda interp, fi, args, kwargs: (log.append(('recursive-call:' + fi.name, list(args), {})),
+                                                            Unknown('result of the recursive call'))[1]
         try:
             ret = it.call_function(md, [inp, factory], {})
         except Raised as r:
@@ -291,7 +294,7 @@ def rule_markdown_entry(ctx, rep, RULE, desc=None):
               and ('renderer-instance.render', [docmark], {}) in log
               and names.index('renderer-instance.__enter__') < names.index('Document') < names.index('renderer-instance.__exit__'))
         return ok, names
-    for trace, (ok_, names_) in enumerate_paths(runner, 64):
+    for trace, (ok_, names_) in enumerate_paths(runner, 3000):
         outcomes.append((ok_, names_))
     ok = bool(outcomes) and all(o[0] for o in outcomes)
     names = next((o[1] for o in outcomes if not o[0]), outcomes[0][1] if outcomes else [])
